@@ -100,3 +100,51 @@ Proof.
   destruct T1 as (_ & C1 & C2 & C3). cbn [fst snd] in *.
   pose proof (type_line_okf enc r2) as T2. destruct T2 as (_ & D1 & D2 & D3). lia.
 Qed.
+
+(* ---------- fuel sufficiency of the cleartext string loops -------------------------------------- *)
+(* every iteration that continues has consumed exactly one byte, so avail r + 1 steps
+   suffice and any larger fuel gives the same result *)
+Lemma skip_cstr_loop_fuel fuel : forall r m,
+  (N.to_nat (avail r) < fuel)%nat -> skip_cstr_loop (fuel + m) r = skip_cstr_loop fuel r.
+Proof.
+  induction fuel as [|f IH]; intros r m Hf; [lia|]. cbn [plus skip_cstr_loop].
+  destruct (ensure r 1) as [r1 [[]|e|]] eqn:E; try reflexivity.
+  apply ensure_spec in E. destruct E as (_ & _ & E2 & _).
+  destruct (r_buf r1) as [|b rest] eqn:Hb; [reflexivity|].
+  destruct (set_buf_tail r1 b rest Hb) as (_ & S2 & _).
+  destruct (byte_eqb b x00); [reflexivity|]. apply IH. lia.
+Qed.
+
+Lemma get_cstr_max_loop_fuel fuel : forall r acc left m,
+  (N.to_nat (avail r) < fuel)%nat ->
+  get_cstr_max_loop (fuel + m) r acc left = get_cstr_max_loop fuel r acc left.
+Proof.
+  induction fuel as [|f IH]; intros r acc left m Hf; [lia|]. cbn [plus get_cstr_max_loop].
+  destruct (left =? 0); [reflexivity|].
+  destruct (ensure r 1) as [r1 [[]|e|]] eqn:E; try reflexivity.
+  apply ensure_spec in E. destruct E as (_ & _ & E2 & _).
+  destruct (r_buf r1) as [|b rest] eqn:Hb; [reflexivity|].
+  destruct (set_buf_tail r1 b rest Hb) as (_ & S2 & _).
+  destruct (byte_eqb b x00); [reflexivity|]. apply IH. lia.
+Qed.
+
+Lemma get_cstr_loop_fuel fuel : forall r acc m,
+  (N.to_nat (avail r) < fuel)%nat -> get_cstr_loop (fuel + m) r acc = get_cstr_loop fuel r acc.
+Proof.
+  induction fuel as [|f IH]; intros r acc m Hf; [lia|]. cbn [plus get_cstr_loop].
+  destruct (ensure r 1) as [r1 [[]|e|]] eqn:E; try reflexivity.
+  apply ensure_spec in E. destruct E as (_ & _ & E2 & _).
+  destruct (r_buf r1) as [|b rest] eqn:Hb; [reflexivity|].
+  destruct (set_buf_tail r1 b rest Hb) as (_ & S2 & _).
+  destruct (byte_eqb b x00); [reflexivity|]. apply IH. lia.
+Qed.
+
+Lemma string_fuel_sufficient r fuel m :
+  (N.to_nat (avail r) < fuel)%nat ->
+  (forall acc left, get_cstr_max_loop (fuel + m) r acc left = get_cstr_max_loop fuel r acc left) /\
+  skip_cstr_loop (fuel + m) r = skip_cstr_loop fuel r /\
+  (forall acc, get_cstr_loop (fuel + m) r acc = get_cstr_loop fuel r acc).
+Proof.
+  intro Hf. split; [intros acc left; apply get_cstr_max_loop_fuel; exact Hf|].
+  split; [apply skip_cstr_loop_fuel; exact Hf|intro acc; apply get_cstr_loop_fuel; exact Hf].
+Qed.
